@@ -1,7 +1,7 @@
-(* C02 — write-through persistence: the byte image always reopens to the same state.  Statements are printed by Check below and compared with C02.expected.  PARTIAL: proved are the write-through of the FAT, of the directory (insert / remove / metadata updates / new directory sectors) and of the MiniFAT cells (every cached cell or entry equals its bytes on disk after every mutation), that the on-disk FAT and directory read back as open does return the cache (the directory followed by the blank slots of its last sector), the entry / header codec round trips in both modes, and that strict acceptance gives the same state as permissive.  Also proved (proofs/ReopenProofs.v): the REOPEN ROUND TRIP - for every state that is Coherent (header bytes = header computed from the cache, FAT / directory / MiniFAT cache = disk, tails FREE, tables valid; no DIFAT sectors, i.e. at most 109 FAT sectors) open in BOTH modes on the concatenated image succeeds and returns exactly the cached tables (directory followed by the blank slots of its last sector, free lists rebuilt in index order); Coherent holds for the fresh file of either version and, by a sound boolean checker, for reachable example states (storages, mini and regular streams, removals, second FAT sector, second directory sector, extended MiniFAT); the header field writes of allocation keep the header coherent.  Also proved (proofs/PersistProofs.v): PERSISTENCE OVER HISTORIES of the namespace - a stronger invariant PInv (Coherent + directory and MiniFAT chains disjoint + every entry well-formed and black + the table represents a tree) holds of the fresh file of either version, is preserved by create_storage, create_new_stream, remove_storage, remove_stream (of empty streams), the four metadata setters (unchanged state on their refusals), including the growth of the directory chain by a sector with a new FAT sector, and implies the round trip; hence for EVERY history of those calls and the queries (up to 6000 calls, each Ok or without effect) the bytes alone reopen in both modes to the cached state, at every prefix.  Also proved (proofs/DataPersist.v): on files WITH stream data, write-back and resize in the cases that allocate nothing, growth of a large stream into reused or appended sectors, and the metadata calls keep cache = disk (Coherent) - hence after flush / drop of a handle the bytes alone reopen in both modes and hold what the handle showed, over histories of such operations.  NOT proved: small-stream allocation, first writes, the migrations and removals on files with data (the store theorems exist, their Coherent counterpart does not), and the DIFAT-sector regime; these are checked at every operation boundary of generated histories: the implementation's bytes, taken without flush, are reopened in both modes by the crate and by the model and all dumps compared. *)
+(* C02 — write-through persistence: the byte image always reopens to the same state.  Statements are printed by Check below and compared with C02.expected.  PARTIAL: proved are the write-through of the FAT, of the directory (insert / remove / metadata updates / new directory sectors) and of the MiniFAT cells (every cached cell or entry equals its bytes on disk after every mutation), that the on-disk FAT and directory read back as open does return the cache (the directory followed by the blank slots of its last sector), the entry / header codec round trips in both modes, and that strict acceptance gives the same state as permissive.  Also proved (proofs/ReopenProofs.v): the REOPEN ROUND TRIP - for every state that is Coherent (header bytes = header computed from the cache, FAT / directory / MiniFAT cache = disk, tails FREE, tables valid; no DIFAT sectors, i.e. at most 109 FAT sectors) open in BOTH modes on the concatenated image succeeds and returns exactly the cached tables (directory followed by the blank slots of its last sector, free lists rebuilt in index order); Coherent holds for the fresh file of either version and, by a sound boolean checker, for reachable example states (storages, mini and regular streams, removals, second FAT sector, second directory sector, extended MiniFAT); the header field writes of allocation keep the header coherent.  Also proved (proofs/PersistProofs.v): PERSISTENCE OVER HISTORIES of the namespace - a stronger invariant PInv (Coherent + directory and MiniFAT chains disjoint + every entry well-formed and black + the table represents a tree) holds of the fresh file of either version, is preserved by create_storage, create_new_stream, remove_storage, remove_stream (of empty streams), the four metadata setters (unchanged state on their refusals), including the growth of the directory chain by a sector with a new FAT sector, and implies the round trip; hence for EVERY history of those calls and the queries (up to 6000 calls, each Ok or without effect) the bytes alone reopen in both modes to the cached state, at every prefix.  Also proved (proofs/DataPersist.v): on files WITH stream data, write-back and resize in the cases that allocate nothing, growth of a large stream into reused or appended sectors, and the metadata calls keep cache = disk (Coherent) - hence after flush / drop of a handle the bytes alone reopen in both modes and hold what the handle showed, over histories of such operations.  Also proved (proofs/DataPersist2.v): the remaining data-moving operations keep a strengthened invariant CohTree (Coherent + every stream's chain well-formed and pairwise disjoint + free lists clean + nothing points into a free cell + tree) and hence the round trip, with the expected content in the reopened file: shrinking a large stream with release of sectors, truncation to zero (both kinds), removal of streams WITH data (large: chain freed; small: mini chain freed, MiniFAT trimmed, root length shrunk; empty), growth of a small stream with mini-sector allocation (reuse and append), first write / resize of an empty stream (small and large), both migrations across the 4096 cutoff (by resize and by write), writes that take free sectors; the REOPENED state satisfies the invariant again, so reopen may occur inside histories; persist_data_history2 lifts this to every history whose steps fall into the covered cases (ResizeCase: 11, WriteCase: 6 - sufficient conditions, spelled out in hist_ok2).  Hypothesis RootFits on mini-sector appends (the root entry's length stays below the version's length mask) records a bug candidate in the crate: nothing bounds the mini stream of a version 3 file by 4 GiB.  NOT proved: shrinking a small stream to fewer (non-zero) mini sectors, release of a large stream with a zero fill above the old content, allocation at the end of the file through writes, growth that needs a new FAT / DIFAT sector or a new sector for the mini-stream container inside those cases, creations inside CohTree histories, and the DIFAT-sector regime; these are checked at every operation boundary of generated histories: the implementation's bytes, taken without flush, are reopened in both modes by the crate and by the model and all dumps compared. *)
 From Cfb.model Require Import Base Names DirEnt State Alloc Dir Mini Store Handle Open Cfb.
 From Cfb.gen Require Import Consts.
-From Cfb.proofs Require Import CoherenceProofs CodecProofs StrictProofs DirCoherence ReopenProofs ReadonlyTotal PersistProofs HistoryRefine Progress HandleFrame DataPersist.
+From Cfb.proofs Require Import CoherenceProofs CodecProofs StrictProofs DirCoherence ReopenProofs ReadonlyTotal PersistProofs HistoryRefine Progress HandleFrame DataPersist DataPersist2.
 Set Printing Width 110.
 
 (* every FAT cell update is on disk when the call returns *)
@@ -249,6 +249,102 @@ Theorem C02_growth_by_appending_persists : ltac:(let t := type of resize_big_app
 Proof. exact resize_big_append_coherent. Qed.
 Check C02_growth_by_appending_persists.
 Print Assumptions C02_growth_by_appending_persists.
+
+(* DataPersist2: shrinking a large stream frees the tail of its chain: FAT cells FREE on disk and in the cache, freed ids appended to the free stack, round trip, content takeN *)
+Theorem C02_release_of_sectors_persists : ltac:(let t := type of resize_big_release_cohdata' in exact t).
+Proof. exact resize_big_release_cohdata'. Qed.
+Check C02_release_of_sectors_persists.
+Print Assumptions C02_release_of_sectors_persists.
+
+(* remove_stream on a stream with a regular chain: chain freed, slot blank, others kept, bytes reopen *)
+Theorem C02_removal_of_a_large_stream_persists : ltac:(let t := type of remove_big_stream_cohtree in exact t).
+Proof. exact remove_big_stream_cohtree. Qed.
+Check C02_removal_of_a_large_stream_persists.
+Print Assumptions C02_removal_of_a_large_stream_persists.
+
+(* remove_stream on a stream in the mini stream: mini chain freed, in-memory MiniFAT trimmed, root length written back, bytes reopen *)
+Theorem C02_removal_of_a_small_stream_persists : ltac:(let t := type of remove_small_stream_cohtree in exact t).
+Proof. exact remove_small_stream_cohtree. Qed.
+Check C02_removal_of_a_small_stream_persists.
+Print Assumptions C02_removal_of_a_small_stream_persists.
+
+(* a small stream growing by k mini sectors (free-list reuse, then append inside the container): MiniFAT and root entry written through *)
+Theorem C02_small_growth_with_allocation_persists : ltac:(let t := type of resize_small_alloc_cohdata' in exact t).
+Proof. exact resize_small_alloc_cohdata'. Qed.
+Check C02_small_growth_with_allocation_persists.
+Print Assumptions C02_small_growth_with_allocation_persists.
+
+(* first bytes of a stream that had no chain *)
+Theorem C02_first_write_of_an_empty_stream_persists : ltac:(let t := type of write_empty_small_cohdata' in exact t).
+Proof. exact write_empty_small_cohdata'. Qed.
+Check C02_first_write_of_an_empty_stream_persists.
+Print Assumptions C02_first_write_of_an_empty_stream_persists.
+
+(* crossing the 4096 cutoff upwards by resize: data copied into a new regular chain, mini chain freed *)
+Theorem C02_migration_small_to_large_persists : ltac:(let t := type of resize_small_to_big_cohdata' in exact t).
+Proof. exact resize_small_to_big_cohdata'. Qed.
+Check C02_migration_small_to_large_persists.
+Print Assumptions C02_migration_small_to_large_persists.
+
+(* crossing the cutoff by a write *)
+Theorem C02_migration_by_write_persists : ltac:(let t := type of write_small_to_big_cohdata' in exact t).
+Proof. exact write_small_to_big_cohdata'. Qed.
+Check C02_migration_by_write_persists.
+Print Assumptions C02_migration_by_write_persists.
+
+(* crossing the cutoff downwards: data copied into mini sectors, regular chain freed *)
+Theorem C02_migration_large_to_small_persists : ltac:(let t := type of resize_big_to_small_cohdata' in exact t).
+Proof. exact resize_big_to_small_cohdata'. Qed.
+Check C02_migration_large_to_small_persists.
+Print Assumptions C02_migration_large_to_small_persists.
+
+(* the state that open returns satisfies CohTree again (free lists rebuilt in index order, blank slots appended): reopen may occur inside histories *)
+Theorem C02_reopened_state_satisfies_the_invariant : ltac:(let t := type of cohtree_reopened in exact t).
+Proof. exact cohtree_reopened. Qed.
+Check C02_reopened_state_satisfies_the_invariant.
+Print Assumptions C02_reopened_state_satisfies_the_invariant.
+
+(* dispatch over the 11 resize cases *)
+Theorem C02_every_covered_resize_case : ltac:(let t := type of resize_case_cohtree in exact t).
+Proof. exact resize_case_cohtree. Qed.
+Check C02_every_covered_resize_case.
+Print Assumptions C02_every_covered_resize_case.
+
+(* dispatch over the 6 write cases *)
+Theorem C02_every_covered_write_case : ltac:(let t := type of write_case_cohtree in exact t).
+Proof. exact write_case_cohtree. Qed.
+Check C02_every_covered_write_case.
+Print Assumptions C02_every_covered_write_case.
+
+(* one API step (handle operation, removal, reopen, query, open_stream) of a covered history keeps CohTree *)
+Theorem C02_one_step_with_data : ltac:(let t := type of step_cohtree in exact t).
+Proof. exact step_cohtree. Qed.
+Check C02_one_step_with_data.
+Print Assumptions C02_one_step_with_data.
+
+(* for EVERY history whose steps fall into the covered cases: CohTree at every prefix and the bytes alone reopen in both modes to the reopened cached state *)
+Theorem C02_persistence_over_histories_with_allocation : ltac:(let t := type of persist_data_history2 in exact t).
+Proof. exact persist_data_history2. Qed.
+Check C02_persistence_over_histories_with_allocation.
+Print Assumptions C02_persistence_over_histories_with_allocation.
+
+(* non-vacuity: growth at end of file, release, removal, a reopen in the middle, growth from the rebuilt free list, a buffered write with its flush *)
+Theorem C02_history_example_with_allocation : ltac:(let t := type of DataPersist2.Example4.hist2_persists in exact t).
+Proof. exact DataPersist2.Example4.hist2_persists. Qed.
+Check C02_history_example_with_allocation.
+Print Assumptions C02_history_example_with_allocation.
+
+(* non-vacuity: large-to-small, small-to-large, first write to an empty stream, reopen - through handles *)
+Theorem C02_history_example_through_handles : ltac:(let t := type of DataPersist2.Example6.hist3_persists in exact t).
+Proof. exact DataPersist2.Example6.hist3_persists. Qed.
+Check C02_history_example_through_handles.
+Print Assumptions C02_history_example_through_handles.
+
+(* why RootFits is a hypothesis: a version 3 root length of 2^32 is written as 64 bits and read back masked to 32 *)
+Theorem C02_root_length_bound_is_needed : ltac:(let t := type of DataPersist2.root_fits_needed in exact t).
+Proof. exact DataPersist2.root_fits_needed. Qed.
+Check C02_root_length_bound_is_needed.
+Print Assumptions C02_root_length_bound_is_needed.
 
 (* non-vacuity: a small and a large stream built by running the model; an 8-step history with writes, a flush, a metadata call, a query and a drop *)
 Theorem C02_data_persistence_example : ltac:(let t := type of DataPersist.Example.hist_persists in exact t).
